@@ -8,7 +8,7 @@ SWEEP_NOTE = " Both tiers also run the exhaustive small-scope sweep of this fami
 
 COMMON_NOTE = (
     "Trusted base: the harness (scripted children, adversarial executor, event log, reference models in /verif/harness/src) and "
-    "the generators' bounds (tuple arity <= 12, array lengths {0,1,2,3,4,5,8,13,23,64,65,257}, Vec lengths up to 257, scripts <= 8 steps, one "
+    "the generators' bounds (tuple arity <= 12, array lengths {0,1,2,3,4,5,8,13,23,64,65,257}, Vec lengths up to 257 (scale layer: up to 66 000), scripts <= 8 steps (scale layer: streams / histories / pipelines of up to 71 000 items), one "
     "level of nesting (two levels in a fifth of the nested cases); deliberately not observed: use of a combinator after a panic unwound out of it, panicking destructors, stack depth). Holds only for the executions generated; a timed-out shard or crashed tool is inconclusive."
 )
 
@@ -44,6 +44,8 @@ EXTRA = {'C13': ' Both tiers also run an exhaustive small-scope sweep of pipelin
 
 for pid, (tech, text, ref) in CHECKS.items():
     text += EXTRA.get(pid, "")
+    if pid in ("C01", "C02", "C04", "C05", "C06", "C07", "C08", "C09", "C10", "C11", "C12", "C13", "C15", "C16", "C17", "C20"):
+        text += " A scale layer (engine S) adds few, big executions with whole-run oracles: containers of 300..66 000 children, streams / group histories / pipelines of up to 71 000 items, limits above 1024, stale wakers invoked after drain and after drop."
     if pid in ("C11", "C12", "C13", "C14", "C15"):
         tech += "; exhaustive small-scope enumeration of " + ("operation histories" if pid in ("C11", "C12") else "pipelines, readiness patterns and wake orders")
     if pid in ("C04", "C05", "C06", "C07", "C08", "C09", "C10"):
@@ -72,7 +74,7 @@ manifest = dict(
         add_only=True,
     ),
     engines=[
-        dict(name="fcv", path="harness/", serves_properties=list(CHECKS.keys()), kind_free_text="Rust harness crate: scripted children + adversarial executor + event log + reference models (engines A static shapes, B group histories, C concurrent-stream pipelines, T real threads, Z zero-sized types), run natively, under Miri, ASan, valgrind and TSan by ./check; fcv dfs / dfsb / dfsc = exhaustive small-scope sweeps (flat shapes / group histories / pipelines), fcv allk = every-crash-point sweep"),
+        dict(name="fcv", path="harness/", serves_properties=list(CHECKS.keys()), kind_free_text="Rust harness crate: scripted children + adversarial executor + event log + reference models (engines A static shapes, B group histories, C concurrent-stream pipelines, T real threads, Z zero-sized types, S scale: few big executions past the 256 / 1024 / 4096 / 65 536 thresholds), run natively, under Miri, ASan, valgrind and TSan by ./check; fcv dfs / dfsb / dfsc = exhaustive small-scope sweeps (flat shapes / group histories / pipelines), fcv allk = every-crash-point sweep"),
     ],
     checks=checks,
     notes="Runtime monitoring only. ./check rebuilds the harness against /repo's working tree (content-hash keyed). Three genuine defects were repaired in /repo with 'fix:' commits (see known_findings.json and DESIGN.md section 8).",
